@@ -423,6 +423,17 @@ static void account_operand (Gen *g, int v, int is_dest)
   }
 }
 
+/* loadb/w/l/q and storeb/w/l/q written by the user: the only load/store opcodes whose meaning under an x2/x4 prefix is the same in
+   every implementation (one element of 2x/4x the size); the offset, upsampling and resampling loads are not given prefixes */
+int ps_plain_ldst (const VOp *op)
+{
+  const char *n = op->name;
+  size_t l = strlen (n);
+  if (!(op->flags & (VOP_LOAD | VOP_STORE)) || l < 5) return 0;
+  if (!strchr ("bwlq", n[l - 1])) return 0;
+  return (l == 5 && !strncmp (n, "load", 4)) || (l == 6 && !strncmp (n, "store", 5));
+}
+
 static int gen_insn (Gen *g, const VOp *op, int last)
 {
   ProgSpec *ps = g->ps;
@@ -435,7 +446,7 @@ static int gen_insn (Gen *g, const VOp *op, int last)
   in.op = op;
   if (ps->nins >= PS_MAXINS) return 0;
 
-  if (g->o->allow_x && !(op->flags & (VOP_ACC | VOP_LOAD | VOP_STORE)) && op_maxsize (op) * 2 <= 8) {
+  if (g->o->allow_x && (!(op->flags & (VOP_ACC | VOP_LOAD | VOP_STORE)) || ps_plain_ldst (op)) && op_maxsize (op) * 2 <= 8) {
     uint32_t ch = vc_pick (g->c, 8);
     if (ch == 6) mult = 2;
     if (ch == 7) mult = op_maxsize (op) * 4 <= 8 ? 4 : 2;
@@ -446,17 +457,18 @@ static int gen_insn (Gen *g, const VOp *op, int last)
   for (j = 0; j < ns; j++) {
     int v;
     if ((op->flags & VOP_LOAD) && j == 0) {
-      int cand[PS_MAXVARS], n = find_vars (ps, VK_SRC, op->ssz[0], 0, cand);
+      int asz = op->ssz[0] * (ps_plain_ldst (op) ? mult : 1);
+      int cand[PS_MAXVARS], n = find_vars (ps, VK_SRC, asz, 0, cand);
       if ((starts (op->name, "ldres") || starts (op->name, "loadup")) && v_excluded ("special-load-shared-source")) n = 0;   /* always a fresh array */
       v = -1;
       /* now and then the array a load instruction reads is declared as a destination that the program never writes (a pure
          function of the program built so far: no choice is consumed, earlier streams keep their meaning) */
       if (ps->count[VK_DEST] < kind_max[VK_DEST] - 1 && v_mix64 ((uint64_t) ps->nins * 131u + (uint64_t) ps->nvars) % 8 == 3) {
-        v = ps_addvar (ps, VK_DEST, op->ssz[0]);
+        v = ps_addvar (ps, VK_DEST, asz);
         if (v >= 0) { ps->vars[v].ro_dest = 1; ps->vars[v].read = 1; ps->has_inplace = 1; ps->has_ro_dest = 1; }
       }
       if (v < 0) {
-        if (n == 0 || (ps->count[VK_SRC] < kind_max[VK_SRC] && vc_chance (g->c, 1, 2))) v = new_source (g, op->ssz[0]);
+        if (n == 0 || (ps->count[VK_SRC] < kind_max[VK_SRC] && vc_chance (g->c, 1, 2))) v = new_source (g, asz);
         else v = -1;
         if (v < 0 && n) v = cand[vc_pick (g->c, (uint32_t) n)];
       }
@@ -487,8 +499,8 @@ static int gen_insn (Gen *g, const VOp *op, int last)
       else v = -1;
       if (v < 0 && n) v = cand[vc_pick (g->c, (uint32_t) n)];
     } else if (op->flags & VOP_STORE) {
-      int cand[PS_MAXVARS], n = find_vars (ps, VK_DEST, op->dsz[0], 2, cand);
-      v = n ? cand[0] : ps_addvar (ps, VK_DEST, op->dsz[0]);
+      int cand[PS_MAXVARS], n = find_vars (ps, VK_DEST, op->dsz[0] * mult, 2, cand);
+      v = n ? cand[0] : ps_addvar (ps, VK_DEST, op->dsz[0] * mult);
     } else {
       v = dest_operand (g, op->dsz[j] * mult, last);
       if (j == 1 && v == in.d[0]) v = -1;
@@ -762,7 +774,7 @@ static int single_mults (const VOp *op, int *m)
 {
   int n = 0;
   m[n++] = 1;
-  if (!(op->flags & (VOP_ACC | VOP_LOAD | VOP_STORE))) {
+  if (!(op->flags & (VOP_ACC | VOP_LOAD | VOP_STORE)) || ps_plain_ldst (op)) {
     if (op_maxsize (op) * 2 <= 8) m[n++] = 2;
     if (op_maxsize (op) * 4 <= 8) m[n++] = 4;
   }
@@ -816,7 +828,7 @@ void ps_single (const VOp *op, int form, ProgSpec *ps)
       if ((op->flags & VOP_LOAD) && j == 0) k = 0;
       if (k == 0) {
         if (j == 0 && inplace && kinds[0] == 0) { v = in.d[0]; ps->has_inplace = 1; ps->vars[v].read = 1; }
-        else v = ps_addvar (ps, VK_SRC, op->ssz[j] * (((op->flags & VOP_LOAD) && j == 0) ? 1 : mult));
+        else v = ps_addvar (ps, VK_SRC, op->ssz[j] * (((op->flags & VOP_LOAD) && j == 0 && !ps_plain_ldst (op)) ? 1 : mult));
         if (!((op->flags & VOP_LOAD) && j == 0)) ps->vars[v].plain = 1;
       } else {
         v = ps_addvar (ps, k == 1 ? VK_CONST : VK_PARAM, op->ssz[j]);
